@@ -321,6 +321,12 @@ sexp sexp_string_count (sexp ctx, sexp self, sexp ch, sexp str, sexp start, sexp
   sexp_assert_type(ctx, sexp_fixnump, SEXP_FIXNUM, start);
   if (sexp_not(end)) end = sexp_make_fixnum(sexp_string_size(str));
   else sexp_assert_type(ctx, sexp_fixnump, SEXP_FIXNUM, end);
+  if (sexp_unbox_fixnum(start) < 0
+      || sexp_unbox_fixnum(start) > (sexp_sint_t)sexp_string_size(str))
+    return sexp_user_exception(ctx, self, "string-count: start index out of range", start);
+  if (sexp_unbox_fixnum(end) < sexp_unbox_fixnum(start)
+      || sexp_unbox_fixnum(end) > (sexp_sint_t)sexp_string_size(str))
+    return sexp_user_exception(ctx, self, "string-count: end index out of range", end);
   c = sexp_unbox_character(ch);
 #if SEXP_USE_UTF8_STRINGS
   if (c < 128) {
